@@ -317,6 +317,14 @@ impl<S: Sut> World<S> {
                         }
                     }
                 }
+                if self.cfg.mon & (mon::ORDER | mon::SEQ | mon::VOP | mon::CONV) != 0 && !self.cfg.misuse {
+                    if let (Some(od), Some(want)) = (g.op_dot, g.want_dot) {
+                        self.st.ev("op_dot");
+                        if od != want {
+                            return Err(self.v("opdot", self.know[r], format!("r{r}: op {:?} reports dot {od:?}; actor {actor}'s next unused dot is {want:?}", g.op)));
+                        }
+                    }
+                }
                 self.deps.push(self.know[r]);
                 let mut rf: Bits = 0;
                 for v in &g.rf_vals {
